@@ -14,6 +14,9 @@ func libSuite(prop string) Suite {
 			if prop == "C05" && ((tier != "thorough" && i%50 == 49) || (tier == "thorough" && i%200 == 199)) {
 				return genHugeBatch(r, prop)
 			}
+			if (prop == "C05" || prop == "C06") && i%20 == 7 {
+				return genRecreateCase(r, prop)
+			}
 			g := newLibGen(r, prop, i%5 == 4)
 			steps := 6 + r.Intn(10)
 			if tier == "thorough" {
@@ -151,11 +154,7 @@ func interopSuite() Suite {
 			g.alwaysSync = true
 			ops := g.History(4 + r.Intn(8))
 			ops = append(ops, Op{"sync", true}, Op{"gwmeta", true})
-			if !g.recreated {
-				// (after a re-creation in place the archives hold leftovers of the old file: the
-				// reference reader's view of such slots is not what C06 is about)
-				ops = append(ops, gwFetchOps(r, g.lay, g.now, 8)...)
-			}
+			ops = append(ops, gwFetchOps(r, g.lay, g.now, 8)...)
 			return ops
 		},
 		Cases: func(tier string) int {
